@@ -51,6 +51,11 @@ def gen_viewlike(rng, tag, routes, has_static):
         v['ctx'] = rng.choice(CTX_NAMES)
         v['name'] = rng.choice(['', '', '', 'v', 'v', 'w1', 'w2'])
         v['perm'] = gen_perm(rng)
+        if v['kind'] in ('cls', 'cls2', 'attr') and rng.random() < 0.35:
+            # the permission comes (also) from @view_defaults on the class or on a base class
+            v['vd'] = {'perm': rng.choice(['view', 'edit', 'edit', 'ZERO', 'NPR']), 'where': rng.choice(['own', 'base', 'base'])}
+            if rng.random() < 0.7:
+                v['perm'] = None
         if rng.random() < 0.12:
             v['csrf'] = True                          # require_csrf=True: csrf_view enabled next to the permission check
         if v['name'] not in WRAPPERS and rng.random() < 0.25:
@@ -188,6 +193,19 @@ def gen_case(rng):
                 o['perm'] = gen_perm(rng, 0.1) if v['perm'] in (None, 'NPR') else rng.choice([None, 'NPR', 'edit'])
                 o['behave'] = 'ret'
                 second.append(o)
+        # a later commit adds a view for a MORE SPECIFIC context under the same name / route / predicates, with another
+        # permission (a new slot: nothing is replaced)
+        for v in list(first):
+            more = {None: ['Root', 'A', 'B'], 'A': ['B']}.get(v['ctx']) if v['k'] == 'view' else None
+            if more and rng.random() < 0.35:
+                o = copy.deepcopy(v)
+                o['tag'] = tag
+                tag += 1
+                o['ctx'] = rng.choice(more)
+                o['perm'] = gen_perm(rng, 0.1) if v['perm'] in (None, 'NPR') else rng.choice([None, 'NPR', 'edit'])
+                o['behave'] = 'ret'
+                o.pop('vd', None)
+                second.append(o)
     batch1 = stmts + first
     rng.shuffle(batch1)
     if pol is not None and not pol['ctor'] and rng.random() < 0.3:
@@ -214,6 +232,11 @@ def gen_case(rng):
             if rng.random() < p:
                 case['grants'].append([perm, c])
     case['requests'] = gen_requests(rng, case, rng.choice([8, 10, 12]))
+    if case['cut'] is not None and rng.random() < 0.7:
+        # the application serves traffic between the two commits (the same kind of requests)
+        case['warm'] = [copy.deepcopy(r) for r in case['requests'] if r.get('op') != 'render' and rng.random() < 0.7][:8]
+        if not case['warm']:
+            del case['warm']
     return case
 
 
@@ -231,7 +254,7 @@ def _is_bool(x):
 
 def valid(case):
     try:
-        if not isinstance(case, dict) or set(case) != {'stmts', 'cut', 'grants', 'flavour', 'requests'}:
+        if not isinstance(case, dict) or set(case) - {'warm'} != {'stmts', 'cut', 'grants', 'flavour', 'requests'}:
             return False
         st = case['stmts']
         cut = case['cut']
@@ -265,7 +288,11 @@ def valid(case):
                     if set(s) != {'k', 'tag', 'perm'} or not (s['perm'] is None or s['perm'] in PERM_TOKENS):
                         return False
                 elif k in ('view', 'notfound', 'forbidden', 'excview'):
-                    if set(s) - {'csrf'} != set(base_view(0)) or ('csrf' in s and (s['csrf'] is not True or k != 'view')):
+                    if set(s) - {'csrf', 'vd'} != set(base_view(0)) or ('csrf' in s and (s['csrf'] is not True or k != 'view')):
+                        return False
+                    if 'vd' in s and not (k == 'view' and s['kind'] in ('cls', 'cls2', 'attr') and isinstance(s['vd'], dict)
+                                          and set(s['vd']) == {'perm', 'where'} and s['vd']['perm'] in PERM_TOKENS
+                                          and s['vd']['where'] in ('own', 'base')):
                         return False
                     if s['kind'] not in KINDS or s['behave'] not in BEHAVES or not _is_bool(s['deco']) \
                             or not _is_bool(s['exc_only']) or not _is_bool(s['append_slash']):
@@ -329,7 +356,10 @@ def valid(case):
                     and ((g[1][0] == 0 and g[1][1] in range(3)) or (g[1][0] == 1 and g[1][1] in range(len(EXC_KINDS))))):
                 return False
         has_static = any(s['k'] == 'static' for s in st)
-        for r in case['requests']:
+        if 'warm' in case and (cut is None or not isinstance(case['warm'], list) or not case['warm']
+                               or any(not isinstance(r, dict) or r.get('op') for r in case['warm'])):
+            return False
+        for r in case['requests'] + case.get('warm', []):
             if set(r) - {'static', 'op', 'secure', 'csrf'} != {'route', 'res', 'vname', 'method', 'xhr', 'truth'}:
                 return False
             if 'csrf' in r and r['csrf'] is not True:
@@ -370,7 +400,16 @@ def shrinks(case):
                 ncut = None
         yield dict(case, stmts=st[:i] + st[i + 1:], cut=ncut)
     if cut is not None:
-        yield dict(case, cut=None)
+        c2 = dict(case, cut=None)
+        c2.pop('warm', None)
+        yield c2
+    if case.get('warm'):
+        c2 = dict(case)
+        del c2['warm']
+        yield c2
+        if len(case['warm']) > 1:
+            for i in range(len(case['warm'])):
+                yield dict(case, warm=case['warm'][:i] + case['warm'][i + 1:])
     for i, s in enumerate(st):
         simple = {'preds': {}, 'wrapper': None, 'deco': False, 'behave': 'ret', 'kind': 'fn', 'route': None, 'exc_only': False,
                   'append_slash': False, 'ctor': False}
@@ -469,6 +508,27 @@ def targeted_cases():
            dict(_rq(vname='v', method='POST'), csrf=True)]
     out.append(_case(copy.deepcopy(st), [], copy.deepcopy(rqs)))
     out.append(_case(copy.deepcopy(st), [['view', [0, 0]]], copy.deepcopy(rqs)))
+    # the permission of a class view comes from @view_defaults on the class or on a base class
+    for where in ('own', 'base'):
+        for kind in ('cls', 'attr', 'cls2'):
+            st = [dict(pol), _v(1, kind=kind, vd={'perm': 'edit', 'where': where}),
+                  _v(2, name='v', kind=kind, perm='view', vd={'perm': 'edit', 'where': where}),
+                  _v(3, name='w1', kind=kind, vd={'perm': 'NPR', 'where': where}), {'k': 'defperm', 'perm': 'view', 'ctor': False}]
+            rqs = [_rq(), _rq(vname='v'), _rq(vname='w1')]
+            out.append(_case(copy.deepcopy(st), [], copy.deepcopy(rqs)))
+            out.append(_case(copy.deepcopy(st), [['edit', [0, 0]], ['view', [0, 0]]], copy.deepcopy(rqs)))
+    # a live application: requests are served, then a later commit adds a protected view for a more specific context
+    for ctx1, ctx2, res in ((None, 'A', 1), ('A', 'B', 2), (None, 'Root', 0)):
+        for route in (None, 'r1'):
+            st = [dict(pol)] + ([{'k': 'route', 'name': 'r1'}] if route else []) + \
+                 [_v(1, ctx=ctx1, name='v', route=route), _v(2, ctx=ctx2, name='v', route=route, perm='edit')]
+            rq = _rq(vname='v', res=res, route=route)
+            c = _case(st, [], [copy.deepcopy(rq)], cut=len(st) - 2)
+            c['warm'] = [copy.deepcopy(rq)]
+            out.append(c)
+            c = _case(copy.deepcopy(st), [['edit', [0, res]]], [copy.deepcopy(rq)], cut=len(st) - 2)
+            c['warm'] = [copy.deepcopy(rq)]
+            out.append(c)
     # constructor arguments
     for falsy in (False, True):
         for dp in ('view', 'ZERO'):
